@@ -3,7 +3,8 @@
 Proof layer: Thm/C17.lean (every proper prefix of a saved image that ends before the relocation
 section is rejected with the right error code: header / table / bodies; a trailing partial
 relocation entry is dropped silently; negation witness: a prefix cut inside the relocation section
-is accepted with unconverted references left in the arena).
+is accepted with unconverted references left in the arena; every single-field corruption of header and
+buffer table, for all values, is rejected except the exactly characterised last-size family F51).
 Tie: (1) op sequences incl. loads of truncated and corrupted small images (h_arena vs the Lean
 model); (2) real compiled-rule images: every prefix length of small files, all section boundaries and
 sampled interior points of larger ones, all single-field corruptions of header and buffer table —
@@ -17,21 +18,35 @@ from vf.checks import arena_common as ac
 PID = "C17"
 THM = ["YaraModel.Thm.C17"]
 MANIFEST = dict(
-    technique="Lean 4 proof over an executable model of yr_arena_load_stream (every cut point before the relocation section is rejected; acceptance of "
-              "cuts inside it proved as the negation) + exhaustive/sectioned truncation and single-field corruption of real images loaded by the real "
-              "loader and by the model",
-    text="proof: Thm/C17.lean proves for every arena (at most 16 buffers, each below 2 GiB), every loader configuration (with or without the proposed "
-         "hardening) and EVERY cut point before the end of the buffer bodies that the loader rejects the prefix (prefix_header: INVALID_FILE; prefix_table, "
-         "prefix_bodies: CORRUPT_FILE), and what happens to a trailing partial relocation entry (applyRelocs_partial). For cut points inside the relocation "
-         "section the property is FALSE for this file format (no count, no terminator): reloc_cut_accepted proves, for every well-formed arena and every k, "
-         "that the image cut after its k-th relocation entry is accepted with only k entries applied (reloc_cut_accepted_witness: a concrete instance with "
-         "an unconverted reference left in a registered slot); the harness shows the same on real files; recorded as known finding F9. Corruptions of header "
-         "and table fields are enumerated on real images (a value set per field), loaded by the real loader under ASan/UBSan and by the model; both must "
-         "reject, deviations are listed as known findings with the field as signature.",
-    design_ref="DESIGN.md §5 C17, §4 D9, §6 F9",
+    technique="Lean 4 proof over an executable model of yr_arena_load_stream / yr_rules_load_stream: every cut point before the relocation section is "
+              "rejected (acceptance of cuts inside it proved as the negation), and every single-field corruption of header and buffer table, for ALL values of "
+              "the field, is rejected except the exactly characterised family of last-entry size changes + exhaustive/sectioned truncation and "
+              "value-set + random-value corruption of real images loaded by the real loader and by the model, with the theorems' closed-form verdicts "
+              "recomputed at run time",
+    text="proof: Thm/C17.lean proves for every arena (at most 16 buffers, each below 2 GiB), every loader configuration and EVERY cut point before the end of "
+         "the buffer bodies that the loader rejects the prefix (prefix_header: INVALID_FILE; prefix_table, prefix_bodies: CORRUPT_FILE), and what happens to a "
+         "trailing partial relocation entry (applyRelocs_partial). For cut points inside the relocation section the property is FALSE for this file format "
+         "(no count, no terminator): reloc_cut_accepted / reloc_cut_accepted_witness; known finding F9. SINGLE-FIELD CORRUPTIONS, for every saved image of a "
+         "well-formed arena and ANY other value of the field's type: corrupt_magic (each of the 4 bytes, any byte: INVALID_FILE), corrupt_version (any byte, "
+         "older or newer: UNSUPPORTED_FILE_VERSION), corrupt_num_buffers (any byte: INVALID_FILE above 16, else CORRUPT_FILE), corrupt_offset (any entry, any "
+         "64-bit value: CORRUPT_FILE), corrupt_size_not_last (any entry but the last, any 32-bit value: CORRUPT_FILE) — the last three for a loader with the "
+         "offset cross-check, which hardened_loaderCfg shows the source tree's loader is. For the last entry's size the property is FALSE and "
+         "size_change_accepted_iff gives the exact acceptance condition of the fully checked loader: raised by 8k with 1 <= k <= number of relocation entries "
+         "and an allocatable size (corrupt_size_last_raised: iff, the arena returned has lost its first k entries, every other raised value gives "
+         "CORRUPT_FILE / INSUFFICIENT_MEMORY), or lowered by 8k where the buffer's cut-off tail passes as relocation entries (corrupt_size_last_lowered: the "
+         "load equals the relocation loop on those bytes — content-dependent, not a closed form; corrupt_size_last_lowered_dvd: otherwise CORRUPT_FILE); "
+         "kernel-checked witnesses size_raised_accepted_witness, size_lowered_accepted_witness; this family is known finding F51 and the check treats nothing "
+         "wider as known. rules.c: rules_summary_test shows for ANY stream that yr_rules_load_stream adds exactly one test to the arena load (summary buffer "
+         "present: a function of the buffer count and of the size field of entry 11), and rules_after_size_corruption that after a single-field corruption it can "
+         "only fire when the summary's own size is set to 0. Tie: header/table corruptions of real images use value sets (boundaries, bit flips, neighbours, the "
+         "two proved families and their edges) AND uniformly random 64-/32-bit values per field; each is loaded by the real loader under ASan/UBSan and by the "
+         "model (must agree), and the driver recomputes the theorems' closed-form verdict for each and compares it with the loader model (THM token).",
+    design_ref="DESIGN.md §5 C17, §4 D9, §6 F9, F51",
     note=core.TB + "The model covers arena.c's loader and the summary test of rules.c; what the scanner does with rules that were wrongly accepted is observed "
-         "(crash / different results), not modelled. Field corruptions use a value set per field (boundaries, bit flips, neighbours), not all 2^32/2^64 values. "
-         "Quick tier samples the cut points inside the relocation section (exhaustive in the thorough tier).")
+         "(crash / different results), not modelled. The corruption theorems are about images written by `save` of a well-formed arena; that real compiled "
+         "rules are such images is what the correspondence (intact image loads, re-saves identically) samples. Still enumerated, not proved: corruptions of "
+         "bytes outside header and table (bodies, relocation entries: op-sequence tie only), multi-field corruptions, and the content-dependent lowered-size "
+         "case on real images. Quick tier samples the cut points inside the relocation section (exhaustive in the thorough tier).")
 
 HDR = 6
 ENT = 12
@@ -73,34 +88,63 @@ def prefix_specs(img, lay, r, exhaustive, tier):
 
 
 def corruption_specs(img, lay, r, tier):
-    """single-field corruptions of the header and of the buffer table: (spec, field name)"""
+    """single-field corruptions of the header and of the buffer table: (spec, info) with info = dict(name, i, v, old).
+    Value sets (boundaries, bit flips, neighbours) PLUS uniformly random values of the field's type, and for the size of
+    the last entry the two families of Thm/C17 size_change_accepted_iff (raised / lowered by multiples of 8)."""
     out = []
+    quick = tier == "quick"
 
-    def put(off, fmt, old, vals, name):
+    def put(off, fmt, old, vals, name, i=None):
+        seen = set()
         for v in vals:
             v &= (1 << (8 * struct.calcsize(fmt))) - 1
-            if v != old:
-                out.append(("w%d:%s" % (off, struct.pack(fmt, v).hex()), name))
+            if v != old and v not in seen:
+                seen.add(v)
+                out.append(("w%d:%s" % (off, struct.pack(fmt, v).hex()), {"name": name, "i": i, "v": v, "old": old}))
 
     for i in range(4):
-        put(i, "<B", img[i], [0, img[i] ^ 1, img[i] ^ 0x20, 255] + ([r.randrange(256) for _ in range(3)] if tier == "quick" else list(range(256))), "magic")
+        put(i, "<B", img[i], [0, img[i] ^ 1, img[i] ^ 0x20, 255] + ([r.randrange(256) for _ in range(3)] if quick else list(range(256))), "magic", i)
     put(4, "<B", img[4], range(256), "version")
     put(5, "<B", img[5], range(256), "num_buffers")
     n = lay["n"]
+    nrel = lay["nrel"]
     for i in range(n):
         off = lay["offs"][i]
-        vals = [0, 1, off + 1, off - 1, off + 8, len(img), 2 ** 63, 2 ** 64 - 1, r.randrange(2 ** 64)] + [off ^ (1 << b) for b in (0, 3, 8, 31, 32, 63)]
-        if tier == "quick":
-            vals = r.sample(vals, 5)
-        put(HDR + ENT * i, "<Q", off, vals, "offset")
+        rnd = [r.randrange(2 ** 64) for _ in range(2 if quick else 12)] + [r.randrange(2 ** 20) for _ in range(1 if quick else 4)]
+        vals = [0, 1, off + 1, off - 1, off + 8, len(img), 2 ** 63, 2 ** 64 - 1] + [off ^ (1 << b) for b in (0, 3, 8, 31, 32, 63)]
+        if quick:
+            vals = r.sample(vals, 4)
+        put(HDR + ENT * i, "<Q", off, vals + rnd, "offset", i)
         sz = lay["sizes"][i]
         nb = lay["sizes"][(i + 1) % n]
-        vals = [0, 1, 2, 3, 4, 5, 6, 7, 8, 9, sz + 1, sz - 1, sz + 8, sz - 8, sz + 16, sz * 2, sz // 2, nb, sz + nb, 2 ** 31, 2 ** 32 - 1, 3 * 10 ** 9,
-                r.randrange(2 ** 32), r.randrange(max(sz, 1) + 64)] + [sz ^ (1 << b) for b in (0, 1, 2, 3, 4, 8, 12, 16, 24, 31)]
-        if tier == "quick":
-            vals = [0, r.randint(1, 7), sz + 8, sz - 8, nb] + r.sample(vals, 6)
-        put(HDR + ENT * i + 8, "<I", sz, vals, "size")
+        rnd = [r.randrange(2 ** 32) for _ in range(2 if quick else 12)] + [r.randrange(max(sz, 1) + 8 * nrel + 64) for _ in range(2 if quick else 8)]
+        vals = [0, 1, 2, 3, 4, 5, 6, 7, 8, 9, sz + 1, sz - 1, sz + 8, sz - 8, sz + 16, sz * 2, sz // 2, nb, sz + nb, 2 ** 31, 2 ** 32 - 1, 3 * 10 ** 9] + \
+               [sz ^ (1 << b) for b in (0, 1, 2, 3, 4, 8, 12, 16, 24, 31)]
+        if quick:
+            vals = [0, r.randint(1, 7), sz + 8, sz - 8, nb] + r.sample(vals, 4)
+        if i == n - 1:
+            # the proved acceptance families and their edges: raised by 8k with k <= nrel / k = nrel + 1 / not a multiple of 8;
+            # lowered by 8k
+            ks = {1, nrel, nrel + 1, max(1, nrel // 2)} | {r.randint(1, max(1, nrel)) for _ in range(2 if quick else 10)}
+            vals += [sz + 8 * k for k in ks] + [sz + 8 * r.randint(1, max(1, nrel)) + r.randint(1, 7) for _ in range(2)]
+            vals += [sz - 8 * k for k in range(1, sz // 8 + 1)][: (3 if quick else 40)] + [sz % 8]
+        put(HDR + ENT * i + 8, "<I", sz, vals + rnd, "size", i)
     return out
+
+
+CAP_MAX = 10485 << 18        # the largest buffer the loader's doubling from 10485 bytes can allocate within 4 GB
+
+
+def f51_family(info, lay, model_verdict):
+    """Thm/C17 size_change_accepted_iff: the single-field corruptions the fully checked loader accepts. Only the size of
+    the LAST table entry: raised by 8k, 1 <= k <= number of relocation entries (closed form), or lowered by 8k where the
+    bytes cut off pass as relocation entries (content-dependent: the loader model decides; unknown for images too big for it)."""
+    if info.get("name") != "size" or info.get("i") != lay["n"] - 1:
+        return False
+    z, sz = info["v"], info["old"]
+    if z > sz:
+        return (z - sz) % 8 == 0 and z - sz <= 8 * lay["nrel"] and z <= CAP_MAX
+    return (sz - z) % 8 == 0 and model_verdict in (None, "OK")
 
 
 def classify_impl(res):
@@ -224,7 +268,7 @@ def run(tier, replay=None):
             exhaustive = i < nex and len(img) <= 9000
             specs = prefix_specs(img, lay, r, exhaustive, tier)
             cor = corruption_specs(img, lay, r, tier)
-            fields = {s: f for s, f in cor}
+            fields = {s: f for s, f in cor}     # spec -> dict(name, i, v, old)
             bufs = " ".join("b=" + ac.hx(x) for x in cases[i]["bufs"][:2])
             allspecs = []
             for sp in specs:      # split long prefix ranges so that the work spreads over the cores
@@ -306,6 +350,13 @@ def run(tier, replay=None):
             mres = expand([t for t in mt[1:] if "=" in t and t[0] in "pw"])
             if not mt[1].startswith("REF=OK"):
                 viol("model-rejects-intact-image", cid, "full", toks[1], mt[1])
+            thm = [t for t in mt if t.startswith("THM=")]
+            if thm:
+                tv = thm[0][4:].split(":")
+                st["closed-form-verdicts-checked"] += int(tv[0])
+                if int(tv[1]) > 0:
+                    viol("loader-model-leaves-the-proved-characterisation", cid, tv[2] + ":" + tv[3] if len(tv) > 3 else "?", None, thm[0],
+                         {"note": "the closed-form verdict of Thm/C17 (corrupt_* / size_change_accepted_iff) differs from the loader model's verdict"})
         for spec, rs in res.items():
             evals += 1
             cls = classify_impl(rs)
@@ -341,28 +392,36 @@ def run(tier, replay=None):
                 else:
                     nontrivial.add((cid, region))
             else:
-                field = m["fields"].get(spec, "?")
+                info = m["fields"].get(spec) or {}
+                field = info.get("name", "?")
                 outcome = cls if cls != "OK" else rs
                 by_field[field][outcome.split("@")[0][:60]] += 1
+                if info.get("name") in ("offset", "size") and info.get("v") not in (None,) and spec in mres:
+                    st["random-or-listed-values-compared:" + field] += 1
                 if rs.endswith("RULES-RETURNED"):
                     viol("error-code-but-rules-returned", cid, spec, rs, mres.get(spec))
-                elif cls == "OK" and rs == "OK:same":
-                    sig = [f for f in findings if f.get("signature", {}).get("kind") == "corruption-accepted" and f["signature"].get("field") == field]
-                    sig2 = [f for f in findings if f.get("signature", {}).get("kind") == "corruption-crash" and f["signature"].get("field") == field]
-                    if sig:
-                        known_seen[sig[0]["id"]] += 1
-                    elif sig2:   # accepted; the rules happen to behave on the test buffers (e.g. only an unused slot lost its entry)
-                        known_seen[sig2[0]["id"] + ":" + field] += 1
+                elif cls in ("OK", "LOADCRASH"):
+                    # accepted by the arena loader (LOADCRASH with the model saying OK: the crash is in what follows the load).
+                    # Known finding F51 covers exactly the family proved in Thm/C17 size_change_accepted_iff, nothing wider.
+                    fam = f51_family(info, lay, mres.get(spec))
+                    if fam and "F51" in fk and (cls == "OK" or mres.get(spec) in (None, "OK")):
+                        known_seen["F51"] += 1
+                        by_field["size"]["F51-" + ("raised" if info["v"] > info["old"] else "lowered")] += 1
+                        if rs != "OK:same":
+                            nontrivial.add((cid, "last-size-misbehaves"))
                     else:
-                        viol("corrupted-file-accepted", cid, spec, rs, mres.get(spec), {"field": field})
-                elif cls in ("OK", "ASSERT", "LOADCRASH"):
-                    sig = [f for f in findings if f.get("signature", {}).get("kind") == "corruption-crash" and f["signature"].get("field") == field]
-                    if sig:
-                        known_seen[sig[0]["id"] + ":" + field] += 1
-                    else:
-                        viol("corrupted-file-accepted-or-loader-crash", cid, spec, rs, mres.get(spec), {"field": field})
+                        viol("corrupted-file-accepted-or-loader-crash", cid, spec, rs, mres.get(spec),
+                             {"field": field, "entry": info.get("i"), "new_value": info.get("v"), "old_value": info.get("old"),
+                              "note": "outside the family proved in Thm/C17 size_change_accepted_iff (known finding F51)"})
+                elif cls == "ASSERT":
+                    viol("loader-assert-on-corrupted-file", cid, spec, rs, mres.get(spec), {"field": field})
                 else:
-                    nontrivial.add((cid, field))
+                    # refused: for the closed-form part of the family the theorem says ACCEPTED — a refusal there means the
+                    # code no longer matches the proved characterisation
+                    if info.get("name") == "size" and info.get("i") == lay["n"] - 1 and info["v"] > info["old"] and f51_family(info, lay, None):
+                        viol("last-size-raised-by-whole-entries-refused", cid, spec, rs, mres.get(spec), {"field": field})
+                    else:
+                        nontrivial.add((cid, field))
     if not replay:
         found |= cli_campaign(chk, tier, r)
     for fid, cnt in sorted(known_seen.items()):
@@ -381,7 +440,7 @@ def run(tier, replay=None):
         "samples": [{"case": (lines2[0][:200] + " ... " + lines2[0][-200:]) if lines2 else None, "implementation": impl[0][:600] if impl else None,
                      "model": model[0][:600] if model else None}]})
     core.handle_broken_proof(chk, lres, found)
-    chk.assumptions += ["field corruptions use a set of values per field (boundary values, bit flips, neighbouring sizes, random), not every value",
+    chk.assumptions += ["on the real loader field corruptions use a set of values per field plus random values (all values are covered by the theorems on the model)",
                         "rules that load are exercised by scanning two buffers and walking yr_rules_get_stats; other uses are not observed",
                         "the Lean loader is run on images up to 40000 bytes (larger ones are checked against the specification only)"]
     return chk.finish("proof")
